@@ -783,6 +783,7 @@ def check_loops(ctx, files: set[str] | None = None, flights: int = 6) -> dict:
             for act in acts:
                 for before, after in zip(act, act[1:]):
                     _compare_iteration(ctx, g, ks, before, after, sm, seen)
+    _flush_loops(ctx, sm, seen)
     sm['kernels'] = len(seen)
     ctx.count('loop_kernel_points', sm['points'])
     return sm
@@ -824,7 +825,17 @@ def _compare_iteration(ctx, g, ks, before, after, sm, seen):
         except Exception as e:  # noqa: BLE001
             ctx.diverge(f'kernel {k.name}', {'kernel': k.name}, f'loop state not observable: {type(e).__name__}: {e}')
             continue
-        got = ctx.driver.outs([{'op': 'kern.eval', 'name': k.name, 'attrs': attrs, 'pts': [{'x': xs, 'b': []}]}])[0]
+        _LOOP_QUEUE.append((k, {'op': 'kern.eval', 'name': k.name, 'attrs': attrs, 'pts': [{'x': xs, 'b': []}]}, want, attrs, xs))
+
+
+_LOOP_QUEUE: list = []
+
+
+def _flush_loops(ctx, sm, seen):
+    if not _LOOP_QUEUE:
+        return
+    outs = ctx.driver.outs([q[1] for q in _LOOP_QUEUE])
+    for (k, _op, want, attrs, xs), got in zip(_LOOP_QUEUE, outs):
         have = u2f(got[0])
         seen.add(k.name)
         sm['points'] += 1
@@ -835,6 +846,7 @@ def _compare_iteration(ctx, g, ks, before, after, sm, seen):
                 ctx.diverge(f'kernel {k.name} (one iteration of the loop of {k.file}:{k.func}, {k.target}) vs implementation',
                             {'kernel': k.name, 'attrs': {kk: u2f(v) for kk, v in attrs.items()}, 'x': [u2f(x) for x in xs]},
                             f'implementation {want!r} vs translated kernel {have!r}')
+    _LOOP_QUEUE.clear()
 
 
 # --------------------------------------------------------------------------- vector kernels (third generation)
